@@ -36,7 +36,7 @@ def battery(seed, n):
 
     rng = random.Random("battery/%d" % seed)
     items = []
-    kinds = ["tree", "doc", "doc", "textdoc", "headc", "jsx", "css", "classes", "attrs", "typed_attrs"]
+    kinds = ["tree", "doc", "doc", "textdoc", "headc", "jsx", "css", "classes", "attrs", "typed_attrs", "jsonmode"]
     for i in range(n):
         k = kinds[i % len(kinds)]
         if k == "tree":
@@ -75,6 +75,11 @@ def battery(seed, n):
             for _ in range(rng.randint(3, 10)):
                 ops.append(["add" if rng.random() < 0.6 else "remove", rng.choice(c16.TOKENS[:8]), rng.random() < 0.5])
             items.append((k, ops))
+        elif k == "jsonmode":
+            # str() in JSON dependency mode; dependencies across items share name and version but differ in content
+            deps = [{"k": "dep", "name": rng.choice(["jq", "bs"]), "version": rng.choice(["1.0", "2.0"]),
+                     "script": [{"src": "f%d.js" % rng.randint(1, 5)}], "meta": {"name": "m", "content": "c%d" % rng.randint(1, 4)}} for _ in range(rng.randint(1, 3))]
+            items.append((k, gen.TAG("div", {"k": "text", "s": "j"}, *deps)))
         elif k == "typed_attrs":
             # value-equal but differently typed attribute values (True == 1 == 1.0, False == 0 == 0.0)
             pool = [{"t": "true"}, {"t": "false"}, {"t": "num", "v": 1}, {"t": "num", "v": 0}, {"t": "num", "v": 1.0}, {"t": "num", "v": 0.0},
@@ -121,6 +126,16 @@ def run_item(kind, r):
             else:
                 t.remove_class(tok)
         return {"html": _d(str(t))}
+    if kind == "jsonmode":
+        import htmltools as _h
+
+        old = _h.html_dependency_render_mode
+        _h.html_dependency_render_mode = "json"
+        try:
+            out = str(gen.build(r))
+        finally:
+            _h.html_dependency_render_mode = old
+        return {"html": _d(out)}
     if kind == "typed_attrs":
         t = ht.Tag("input", **{n: gen.build_attr_value(v) for n, v in r})
         css_ = ht.css(**{n: gen.build_attr_value(v) for n, v in r if v["t"] in ("num", "str")})
@@ -179,7 +194,7 @@ def run(ctx):
     from .. import gen
     from concurrent.futures import ThreadPoolExecutor
 
-    n = 160 if not ctx.thorough else 4000
+    n = 165 if not ctx.thorough else 4004
     hashseeds = [0, 1, 2, 3, 4, 5, 6, 7] if not ctx.thorough else list(range(0, 36)) + [4242, 99999, 2**31, 4294967295, "random", "random", "random", "random", "random", "random", "random", "random"]
     items = battery(ctx.seed, n)
     ORDERS = ("forward", "reversed", "shuffled", "interleaved")
@@ -203,7 +218,7 @@ def run(ctx):
                 v = json.dumps(o[order][str(i)], sort_keys=True)
                 seen.setdefault(v, []).append((str(hs), order))
                 ctx.count("monitor.digest_comparisons")
-        ctx.case((kind, recipe), nontrivial=kind in ("doc", "textdoc", "headc", "attrs", "classes", "css", "jsx", "typed_attrs"))
+        ctx.case((kind, recipe), nontrivial=kind in ("doc", "textdoc", "headc", "attrs", "classes", "css", "jsx", "typed_attrs", "jsonmode"))
         ctx.state("battery_kinds", kind)
         if len(seen) > 1:
             groups = list(seen.values())
